@@ -19,7 +19,8 @@ EXPLANATION = (
     "map, placed by a running offset that advances by each map's own pdim); the Hs block is negated before it is written; the regulariser shifts with the sign; (R4) the "
     "regularisation shift and its restore are guarded by the same flag, the restore follows the refactorisation and "
     "iterative refinement reads only the restored copy; (R5) one scaling state per factorisation: nothing between kktsystem.update and the last kktsystem.solve of an iteration writes a field that get_Hs / the sparse update / mul_Hs read; (R6) all four passes select sparse cones with the same test; (R8) get_Hs of every cone type fills its whole block; (R7) KKT mirror discipline: the value array and the LDL engine's permuted copy are written only through the paired helpers (re-run of C08.R5)."
-    " (R6) also: the second-order cone's layout predicates are its representation flag (sparse_data) or literally the allocation test of new; (R9) GenPowerCone::mul_Hs applies mu (D + p p' - q q' - r r') with whole-block inner products and get_Hs the diagonal mu d1, mu d2.")
+    " (R6) also: the second-order cone's layout predicates are its representation flag (sparse_data) or literally the allocation test of new; (R9) GenPowerCone::mul_Hs applies mu (D + p p' - q q' - r r') with whole-block inner products and get_Hs the diagonal mu d1, mu d2."
+    " R9 also: the expansion columns p, q, r are each scaled by -sqrt(mu).")
 ASSUMPTIONS = ['rustc MIR construction and trait resolution are correct',
                'the block utilities (colcount_block/fill_block ...) are mutually consistent (C16 territory)']
 
@@ -640,6 +641,20 @@ def genpow_operator(rep, F, tag, rid):
         R.check(seen == set(want), 'both-blocks' + tag, 'mul_Hs writes blocks %s' % sorted(seen), f.loc())
         R.check(tail == ['axpby(arg2, dot(p, arg3), p, one())', 'scale(arg2, μ)'], 'rank-one-p-then-mu' + tag,
                 'mul_Hs finishes with %s, expected y += <p, x> p and then y *= mu' % tail, f.loc())
+        # the expansion columns carry sqrt(mu): eliminating the auxiliary variables then gives mu (p p' - q q' - r r'), the operator above
+        us = [h for h in F.fns if h.name == 'csc_update_sparsecone' and 'GenPowerCone' in (h.impl_self or '')]
+        if len(us) != 1:
+            raise AnchorError('csc_update_sparsecone for GenPowerCone matched %d functions' % len(us))
+        u = us[0]
+        sc = {}
+        for c in u.calls:
+            if c.callee.name == '<indirect>' and len(c.args) == 4:
+                a = [canon(u.sym_operand(x)).replace('self.data.0.pointer.', '') for x in c.args]
+                m_ = re.fullmatch(r'recover_map\(self, arg2\)\.(\w+)', a[2])
+                if m_ and not a[3].startswith(('array(', 'p', 'q', 'r')) or (m_ and a[3].startswith('neg(')):
+                    sc[m_.group(1)] = a[3]
+        R.check({k: v for k, v in sc.items() if k in 'pqr'} == {'p': 'neg(sqrt(μ))', 'q': 'neg(sqrt(μ))', 'r': 'neg(sqrt(μ))'}, 'column-scale' + tag,
+                'the expansion columns are scaled by %s: each of p, q, r must carry -sqrt(mu), so that the eliminated block is mu (p p\' - q q\' - r r\') as in mul_Hs' % sc, u.loc())
         g = F.one(name='get_Hs', adt='GenPowerCone', trait='Cone')
         calls = [canon(('call', c.callee.target_key or c.callee.name, tuple(g.sym_operand(a) for a in c.args), c.bb)).replace('self.data.0.pointer.', '') for c in g.calls if c.callee.name in ('scalarop_from', 'set', 'fill')]
         R.check(len(calls) == 2 and calls[0].startswith('scalarop_from(index_mut(arg2, RangeTo::RangeTo(dim1(self))), closure(') and calls[0].endswith(', d1)')
